@@ -152,7 +152,11 @@ class C03(ArrayProp):
 
 class C13(ArrayProp):
     lean_modules = ["Varint.Props.C13"]
-    keys = ["len", "b"]
+    keys = ["len", "b", "n", "v", "last"]
+
+    def gen(self, rng, tier):
+        return ArrayProp.gen(self, rng, tier) + genops.gen_rle_hostile(rng, tier)
+
     rule = ("every valid encoding of the C02 stream decoded with capacities 0, 1, n/2, n-1, 128, 129, n into an output "
             "block of exactly that many elements followed by guard elements")
 
